@@ -1600,6 +1600,12 @@ class SQLModel:
         using_left, using_right = join_node.columns_used_from_sources(
             using=using.union(join_node.on_a).union(join_node.on_b)
         )
+        # the rows of a side matter even when none of its values does (key-less joins):
+        # never ask a side for an empty column set
+        if len(using_left) < 1:
+            using_left = OrderedSet([join_node.sources[0].column_names[0]])
+        if len(using_right) < 1:
+            using_right = OrderedSet([join_node.sources[1].column_names[0]])
         sql_left = join_node.sources[0].to_near_sql_implementation_(
             db_model=self, using=using_left, temp_id_source=temp_id_source
         )
